@@ -15,6 +15,7 @@ import Knut.Driver.C16
 import Knut.Driver.C20
 import Knut.Driver.C13
 import Knut.Driver.C14
+import Knut.Driver.C05
 import Knut.Driver.GoSem
 import Knut.Driver.C09Cmd
 /-! Line-protocol driver over the executable model: one request per line (`op field*`), one answer line.
@@ -29,6 +30,7 @@ def handlers : List (List String → Option String) := [
   Knut.Driver.C20.handle,
   Knut.Driver.C13.handle,
   Knut.Driver.C14.handle,
+  Knut.Driver.C05.handle,
   Knut.Driver.C11.handle,
   Knut.Driver.C15.handle,
   Knut.Driver.C07.handle,
